@@ -284,3 +284,31 @@ func CheckIndex(db *pogreb.DB, env *Env, ref State) (problems []string, notes []
 	}
 	return problems, notes, shape
 }
+
+// CheckSegmentCounters compares, at a quiescent point, the per-segment record counters the database keeps in
+// memory (they drive pickForCompaction: a segment whose delete records are not counted may be compacted alone,
+// dropping delete markers whose puts live in older segments) with what the independent decoder finds in the
+// segment files. It returns a description of the first mismatch that can make compaction unsafe: delete records
+// present in the file but a DeleteRecords counter of zero.
+func CheckSegmentCounters(db *pogreb.DB, env *Env) string {
+	for _, s := range db.VerifSegments() {
+		d, err := env.ReadFile(filepath.Join(env.Dir, s.Name))
+		if err != nil {
+			continue
+		}
+		recs, _, err := decoder.ValidPrefix(d)
+		if err != nil {
+			continue
+		}
+		dels := 0
+		for _, r := range recs {
+			if r.Delete {
+				dels++
+			}
+		}
+		if dels > 0 && s.DeleteRecords == 0 {
+			return fmt.Sprintf("segment %s holds %d delete records but its DeleteRecords counter is 0: compaction may drop these delete markers while older segments still hold the deleted keys", s.Name, dels)
+		}
+	}
+	return ""
+}
